@@ -750,6 +750,8 @@ class Conv:
             return t.atom('guard', tuple(args))
         if name == '_alloc' and len(args) == 1:
             return args[0]
+        if name in ('_or', '_and'):
+            return t.atom('bool', tuple(args), extra='Or' if name == '_or' else 'And')
         if name == 'sum' and recv is None and dotted(n.func) == 'sum' \
                 and len(args) == 1 and not kw:
             # builtin sum iterates the first axis
